@@ -1,14 +1,605 @@
-/- C05 — helper lemmas (bridge from the `Fin`-function model to Mathlib matrices). -/
+/- C05 — helper lemmas: bridge from the `Fin`-function model to Mathlib matrices,
+   specification of the certified inverse and of `fitW`. -/
 import NipyVerif.Model.C05
 import Mathlib.Data.Matrix.Mul
+import Mathlib.Data.Matrix.Basic
+import Mathlib.LinearAlgebra.Matrix.NonsingularInverse
 import Mathlib.Algebra.BigOperators.Fin
+import Mathlib.Algebra.Order.BigOperators.Ring.Finset
+import Mathlib.Algebra.Order.Field.Rat
 import Mathlib.Tactic.Ring
 import Mathlib.Tactic.Linarith
+import Mathlib.Tactic.FieldSimp
+import Mathlib.Tactic.Positivity
 
 namespace NipyVerif.C05
 open Matrix
 
 theorem fsum_eq {n : Nat} (f : Fin n → Rat) : fsum f = ∑ i, f i := by
   unfold fsum; exact List.sum_ofFn
+
+/-! ### array backing is the identity -/
+
+theorem ofArr2_toArr2 {n p : Nat} (A : Mat n p) : ofArr2 (toArr2 A) = A := by
+  funext i j
+  simp [ofArr2, toArr2, Array.getD]
+
+theorem ofArr1_toArr1 {n : Nat} (x : Vec n) : ofArr1 (toArr1 x) = x := by
+  funext i
+  simp [ofArr1, toArr1, Array.getD]
+
+theorem memo_eq {n p : Nat} (A : Mat n p) : memo A = A := ofArr2_toArr2 A
+theorem memoV_eq {n : Nat} (x : Vec n) : memoV x = x := ofArr1_toArr1 x
+
+/-! ### Mathlib matrices -/
+
+abbrev toM {n p : Nat} (A : Mat n p) : Matrix (Fin n) (Fin p) ℚ := Matrix.of A
+
+theorem toM_inj {n p : Nat} {A B : Mat n p} (h : toM A = toM B) : A = B := Matrix.of.injective h
+
+theorem mmul_toM {n k p : Nat} (A : Mat n k) (B : Mat k p) : toM (mmul A B) = toM A * toM B := by
+  ext i j; simp [mmul, fsum_eq, Matrix.mul_apply]
+
+theorem tr_toM {n p : Nat} (A : Mat n p) : toM (tr A) = (toM A)ᵀ := by
+  ext i j; rfl
+
+theorem idm_toM (n : Nat) : toM (idm n) = 1 := by
+  ext i j; simp [idm, Matrix.one_apply]
+
+theorem msub_toM {n p : Nat} (A B : Mat n p) : toM (msub A B) = toM A - toM B := by
+  ext i j; rfl
+
+theorem mmul_assoc {n k l p : Nat} (A : Mat n k) (B : Mat k l) (C : Mat l p) :
+    mmul (mmul A B) C = mmul A (mmul B C) := by
+  apply toM_inj; simp only [mmul_toM, Matrix.mul_assoc]
+
+theorem mmul_idm {n p : Nat} (A : Mat n p) : mmul A (idm p) = A := by
+  apply toM_inj; simp [mmul_toM, idm_toM]
+
+theorem idm_mmul {n p : Nat} (A : Mat n p) : mmul (idm n) A = A := by
+  apply toM_inj; simp [mmul_toM, idm_toM]
+
+theorem tr_mmul {n k p : Nat} (A : Mat n k) (B : Mat k p) : tr (mmul A B) = mmul (tr B) (tr A) := by
+  apply toM_inj; simp [mmul_toM, tr_toM, Matrix.transpose_mul]
+
+theorem tr_tr {n p : Nat} (A : Mat n p) : tr (tr A) = A := rfl
+
+/-- a left inverse of a square matrix is a right inverse -/
+theorem mmul_comm_of_inv {p : Nat} {G A : Mat p p} (h : mmul G A = idm p) : mmul A G = idm p := by
+  apply toM_inj
+  have h' : toM G * toM A = 1 := by rw [← mmul_toM, h, idm_toM]
+  rw [mmul_toM, idm_toM]
+  exact mul_eq_one_comm.mp h'
+
+/-! ### certified inverse -/
+
+theorem matEq_iff {n p : Nat} (A B : Mat n p) : matEq A B = true ↔ A = B := by
+  unfold matEq
+  simp only [List.all_eq_true, List.mem_finRange, forall_const, decide_eq_true_eq]
+  constructor
+  · intro h; funext i j; exact h i j
+  · intro h i j; rw [h]
+
+theorem inv?_spec {p : Nat} {A G : Mat p p} (h : inv? A = some G) : mmul G A = idm p := by
+  unfold inv? at h
+  split at h
+  · exact absurd h (by simp)
+  · rename_i g _
+    simp only at h
+    split at h
+    · rename_i hc
+      have := (matEq_iff _ _).mp hc
+      simp only [Option.some.injEq] at h
+      rw [← h]; exact this
+    · exact absurd h (by simp)
+
+/-! ### specification of `fitW` -/
+
+structure FitSpec {n p v : Nat} (wX : Mat n p) (wY : Mat n v) (f : Fit n p v) (G : Mat p p) : Prop where
+  inv : mmul G (mmul (tr wX) wX) = idm p
+  pinv : f.pinv = mmul G (tr wX)
+  beta : f.beta = mmul f.pinv wY
+  wresid : f.wresid = msub wY (mmul wX f.beta)
+  sse : f.sse = fun j => fsum fun i => f.wresid i j * f.wresid i j
+  dispersion : f.dispersion = fun j => f.sse j / ((n : Rat) - (p : Rat))
+  cov : f.cov = mmul f.pinv (tr f.pinv)
+  df : f.dfResid = (n : Int) - (p : Int)
+
+theorem fitW_spec {n p v : Nat} {wX : Mat n p} {wY : Mat n v} {f : Fit n p v}
+    (h : fitW wX wY = some f) : ∃ G, inv? (mmul (tr wX) wX) = some G ∧ FitSpec wX wY f G := by
+  unfold fitW at h
+  simp only [ofArr2_toArr2, ofArr1_toArr1] at h
+  split at h
+  · exact absurd h (by simp)
+  · rename_i G hG
+    simp only [Option.some.injEq] at h
+    refine ⟨G, hG, ?_⟩
+    subst h
+    exact ⟨inv?_spec hG, rfl, rfl, rfl, rfl, rfl, rfl, rfl⟩
+
+/-- conversely, `fitW` succeeds as soon as the certified inverse exists, with these fields -/
+theorem fitW_of_inv {n p v : Nat} {wX : Mat n p} (wY : Mat n v) {G : Mat p p}
+    (hG : inv? (mmul (tr wX) wX) = some G) :
+    ∃ f, fitW wX wY = some f ∧ FitSpec wX wY f G := by
+  unfold fitW
+  simp only [ofArr2_toArr2, ofArr1_toArr1, hG]
+  exact ⟨_, rfl, ⟨inv?_spec hG, rfl, rfl, rfl, rfl, rfl, rfl, rfl⟩⟩
+
+end NipyVerif.C05
+
+namespace NipyVerif.C05
+open Matrix
+
+theorem fit_eq {n p v : Nat} (w : Whitener n) (X : Mat n p) (Y : Mat n v) :
+    fit w X Y = fitW (w.apply X) (w.apply Y) := by
+  unfold fit; simp only [ofArr2_toArr2]
+
+theorem orth_of_spec {n p v : Nat} {wX : Mat n p} {wY : Mat n v} {f : Fit n p v} {G : Mat p p}
+    (s : FitSpec wX wY f G) : mmul (tr wX) f.wresid = fun _ _ => 0 := by
+  have hr := mmul_comm_of_inv s.inv
+  apply toM_inj
+  have h1 : toM (mmul (tr wX) wX) * toM G = 1 := by rw [← mmul_toM, hr, idm_toM]
+  rw [s.wresid, s.beta, s.pinv]
+  simp only [mmul_toM, msub_toM, tr_toM] at h1 ⊢
+  rw [Matrix.mul_sub, ← Matrix.mul_assoc, ← Matrix.mul_assoc, ← Matrix.mul_assoc, h1,
+    Matrix.one_mul, sub_self]
+  rfl
+
+theorem orth_entry {n p v : Nat} {wX : Mat n p} {wY : Mat n v} {f : Fit n p v} {G : Mat p p}
+    (s : FitSpec wX wY f G) (l : Fin p) (j : Fin v) : ∑ i, wX i l * f.wresid i j = 0 := by
+  have := congrFun (congrFun (orth_of_spec s) l) j
+  simpa [mmul, tr, fsum_eq] using this
+
+theorem rss_min_of_spec {n p v : Nat} {wX : Mat n p} {wY : Mat n v} {f : Fit n p v} {G : Mat p p}
+    (s : FitSpec wX wY f G) (b : Mat p v) (j : Fin v) :
+    rss wX wY f.beta j ≤ rss wX wY b j := by
+  have hw : ∀ i, f.wresid i j = wY i j - ∑ l, wX i l * f.beta l j := by
+    intro i; rw [s.wresid]; simp [msub, mmul, fsum_eq]
+  have key : ∀ i, wY i j - ∑ l, wX i l * b l j
+      = f.wresid i j + ∑ l, wX i l * (f.beta l j - b l j) := by
+    intro i; rw [hw i]; simp only [mul_sub, Finset.sum_sub_distrib]; ring
+  have cross : ∑ i, f.wresid i j * ∑ l, wX i l * (f.beta l j - b l j) = 0 := by
+    simp only [Finset.mul_sum]
+    rw [Finset.sum_comm]
+    have : ∀ l, ∑ i, f.wresid i j * (wX i l * (f.beta l j - b l j))
+        = (f.beta l j - b l j) * ∑ i, wX i l * f.wresid i j := by
+      intro l; rw [Finset.mul_sum]; apply Finset.sum_congr rfl; intro i _; ring
+    simp only [this, orth_entry s, mul_zero, Finset.sum_const_zero]
+  unfold rss
+  simp only [fsum_eq, mmul]
+  have e1 : ∑ i, (wY i j - ∑ l, wX i l * f.beta l j) * (wY i j - ∑ l, wX i l * f.beta l j)
+      = ∑ i, f.wresid i j * f.wresid i j := by
+    apply Finset.sum_congr rfl; intro i _; rw [hw i]
+  have e2 : ∑ i, (wY i j - ∑ l, wX i l * b l j) * (wY i j - ∑ l, wX i l * b l j)
+      = ∑ i, f.wresid i j * f.wresid i j
+        + ∑ i, (∑ l, wX i l * (f.beta l j - b l j)) * (∑ l, wX i l * (f.beta l j - b l j)) := by
+    have : ∀ i, (wY i j - ∑ l, wX i l * b l j) * (wY i j - ∑ l, wX i l * b l j)
+        = f.wresid i j * f.wresid i j
+          + 2 * (f.wresid i j * ∑ l, wX i l * (f.beta l j - b l j))
+          + (∑ l, wX i l * (f.beta l j - b l j)) * (∑ l, wX i l * (f.beta l j - b l j)) := by
+      intro i; rw [key i]; ring
+    simp only [this, Finset.sum_add_distrib, ← Finset.mul_sum, cross, mul_zero, add_zero]
+  rw [e1, e2]
+  have : 0 ≤ ∑ i, (∑ l, wX i l * (f.beta l j - b l j)) * (∑ l, wX i l * (f.beta l j - b l j)) :=
+    Finset.sum_nonneg (fun i _ => mul_self_nonneg _)
+  linarith
+
+theorem cov_gram_of_spec {n p v : Nat} {wX : Mat n p} {wY : Mat n v} {f : Fit n p v} {G : Mat p p}
+    (s : FitSpec wX wY f G) : mmul f.cov (mmul (tr wX) wX) = idm p := by
+  have hr := mmul_comm_of_inv s.inv
+  apply toM_inj
+  have h1 : toM (mmul (tr wX) wX) * toM G = 1 := by rw [← mmul_toM, hr, idm_toM]
+  have h2 : toM G * toM (mmul (tr wX) wX) = 1 := by rw [← mmul_toM, s.inv, idm_toM]
+  rw [s.cov, s.pinv]
+  simp only [mmul_toM, tr_toM, idm_toM, Matrix.transpose_mul, Matrix.transpose_transpose] at h1 h2 ⊢
+  -- G Xᵀ X Gᵀ (Xᵀ X) = Gᵀ (XᵀX) … use symmetry of the Gram matrix
+  have hsym : ((toM wX)ᵀ * toM wX)ᵀ = (toM wX)ᵀ * toM wX := by
+    simp [Matrix.transpose_mul]
+  have h3 : (toM G)ᵀ * ((toM wX)ᵀ * toM wX) = 1 := by
+    have := congrArg Matrix.transpose h1
+    simpa [Matrix.transpose_mul, hsym] using this
+  calc toM G * (toM wX)ᵀ * (toM wX * (toM G)ᵀ) * ((toM wX)ᵀ * toM wX)
+      = toM G * ((toM wX)ᵀ * toM wX) * ((toM G)ᵀ * ((toM wX)ᵀ * toM wX)) := by
+        simp only [Matrix.mul_assoc]
+    _ = 1 := by rw [h2, h3, Matrix.one_mul]
+
+end NipyVerif.C05
+
+namespace NipyVerif.C05
+open Matrix
+
+/-! ### whiteners act column by column and linearly -/
+
+theorem arLoop_select {n k k' : Nat} (σ : Fin k' → Fin k) (X : Mat n k) (rho : List Rat) :
+    ∀ (i : Nat) (acc : Mat n k),
+      arLoop (fun t j => X t (σ j)) rho i (fun t j => acc t (σ j))
+        = fun t j => arLoop X rho i acc t (σ j) := by
+  induction rho with
+  | nil => intro i acc; rfl
+  | cons r rs ih =>
+      intro i acc
+      simp only [arLoop]
+      have : arStep (fun t j => X t (σ j)) (fun t j => acc t (σ j)) i r
+          = fun t j => arStep X acc i r t (σ j) := by
+        funext t j; unfold arStep; split <;> rfl
+      rw [this]; exact ih (i + 1) (arStep X acc i r)
+
+theorem apply_select {n k k' : Nat} (w : Whitener n) (σ : Fin k' → Fin k) (A : Mat n k) :
+    w.apply (fun t j => A t (σ j)) = fun t j => w.apply A t (σ j) := by
+  cases w with
+  | ols => rfl
+  | wls c => rfl
+  | ar rho => exact arLoop_select σ A rho 0 A
+  | gls W => rfl
+
+theorem arLoop_smul {n k : Nat} (a : Rat) (X : Mat n k) (rho : List Rat) :
+    ∀ (i : Nat) (acc : Mat n k),
+      arLoop (fun t j => a * X t j) rho i (fun t j => a * acc t j)
+        = fun t j => a * arLoop X rho i acc t j := by
+  induction rho with
+  | nil => intro i acc; rfl
+  | cons r rs ih =>
+      intro i acc
+      simp only [arLoop]
+      have : arStep (fun t j => a * X t j) (fun t j => a * acc t j) i r
+          = fun t j => a * arStep X acc i r t j := by
+        funext t j; unfold arStep; split
+        · ring
+        · rfl
+      rw [this]; exact ih (i + 1) (arStep X acc i r)
+
+theorem mmul_smul {n k p : Nat} (a : Rat) (A : Mat n k) (B : Mat k p) :
+    mmul A (fun l j => a * B l j) = fun i j => a * mmul A B i j := by
+  funext i j; simp only [mmul, fsum_eq, Finset.mul_sum]
+  apply Finset.sum_congr rfl; intro l _; ring
+
+theorem apply_smul {n k : Nat} (w : Whitener n) (a : Rat) (A : Mat n k) :
+    w.apply (fun t j => a * A t j) = fun t j => a * w.apply A t j := by
+  cases w with
+  | ols => rfl
+  | wls c => funext t j; simp only [Whitener.apply, whitenWLS]; ring
+  | ar rho => exact arLoop_smul a A rho 0 A
+  | gls W => exact mmul_smul a W A
+
+theorem arLoop_zero {n k : Nat} (X : Mat n k) (m : Nat) :
+    ∀ (i : Nat) (acc : Mat n k), arLoop X (List.replicate m 0) i acc = acc := by
+  induction m with
+  | zero => intro i acc; rfl
+  | succ m ih =>
+      intro i acc
+      simp only [List.replicate_succ, arLoop]
+      have : arStep X acc i 0 = acc := by
+        funext t j; unfold arStep; split
+        · simp
+        · rfl
+      rw [this]; exact ih (i + 1) acc
+
+theorem whitenGLS_diag {n k : Nat} (c : Vec n) (A : Mat n k) : whitenGLS (diag c) A = whitenWLS c A := by
+  funext i j
+  simp only [whitenGLS, whitenWLS, mmul, diag, fsum_eq, ite_mul, zero_mul, Finset.sum_ite_eq,
+    Finset.mem_univ, if_true]
+  ring
+
+theorem idm_eq_diag_one (n : Nat) : idm n = diag (fun _ => 1) := rfl
+
+/-! ### selection / scaling of data columns in `fitW` -/
+
+theorem fitW_select {n p v v' : Nat} (wX : Mat n p) (wY : Mat n v) (σ : Fin v' → Fin v) (f : Fit n p v)
+    (h : fitW wX wY = some f) :
+    ∃ f', fitW wX (fun i k => wY i (σ k)) = some f' ∧
+      f'.beta = (fun a k => f.beta a (σ k)) ∧ f'.wresid = (fun i k => f.wresid i (σ k)) ∧
+      f'.sse = (fun k => f.sse (σ k)) ∧
+      f'.dispersion = (fun k => f.dispersion (σ k)) ∧ f'.cov = f.cov ∧ f'.dfResid = f.dfResid := by
+  obtain ⟨G, hG, s⟩ := fitW_spec h
+  obtain ⟨f', hf', s'⟩ := fitW_of_inv (fun i k => wY i (σ k)) hG
+  have hp : f'.pinv = f.pinv := by rw [s'.pinv, s.pinv]
+  have hb : f'.beta = fun a k => f.beta a (σ k) := by rw [s'.beta, s.beta, hp]; rfl
+  have hr : f'.wresid = fun i k => f.wresid i (σ k) := by rw [s'.wresid, s.wresid, hb]; rfl
+  have hs : f'.sse = fun k => f.sse (σ k) := by rw [s'.sse, s.sse, hr]
+  refine ⟨f', hf', hb, hr, hs, ?_, ?_, ?_⟩
+  · rw [s'.dispersion, s.dispersion, hs]
+  · rw [s'.cov, s.cov, hp]
+  · rw [s'.df, s.df]
+
+theorem fitW_smul {n p v : Nat} (wX : Mat n p) (wY : Mat n v) (a : Rat) (f : Fit n p v)
+    (h : fitW wX wY = some f) :
+    ∃ f', fitW wX (fun i k => a * wY i k) = some f' ∧
+      f'.beta = (fun l k => a * f.beta l k) ∧ f'.wresid = (fun i k => a * f.wresid i k) ∧
+      f'.dispersion = (fun k => a * a * f.dispersion k) ∧ f'.cov = f.cov ∧ f'.dfResid = f.dfResid := by
+  obtain ⟨G, hG, s⟩ := fitW_spec h
+  obtain ⟨f', hf', s'⟩ := fitW_of_inv (fun i k => a * wY i k) hG
+  have hp : f'.pinv = f.pinv := by rw [s'.pinv, s.pinv]
+  have hb : f'.beta = fun l k => a * f.beta l k := by rw [s'.beta, s.beta, hp, mmul_smul]
+  have hr : f'.wresid = fun i k => a * f.wresid i k := by
+    rw [s'.wresid, s.wresid, hb, mmul_smul]; funext i k; simp only [msub]; ring
+  have hs : f'.sse = fun k => a * a * f.sse k := by
+    rw [s'.sse, s.sse, hr]; funext k; simp only [fsum_eq, Finset.mul_sum]
+    apply Finset.sum_congr rfl; intro i _; ring
+  refine ⟨f', hf', hb, hr, ?_, ?_, ?_⟩
+  · rw [s'.dispersion, s.dispersion, hs]; funext k; ring
+  · rw [s'.cov, s.cov, hp]
+  · rw [s'.df, s.df]
+
+/-! ### labs `ols` -/
+
+theorem labsOls_spec {n p v : Nat} {X : Mat n p} {Y : Mat n v} {l : LabsFit p v}
+    (h : labsOls X Y = some l) :
+    ∃ f, fitW X Y = some f ∧ l.beta = f.beta ∧ l.nvbeta = f.cov ∧ l.s2 = f.dispersion ∧
+      l.dof = ((f.dfResid : Int) : Rat) := by
+  unfold labsOls at h
+  simp only [ofArr2_toArr2, ofArr1_toArr1] at h
+  split at h
+  · exact absurd h (by simp)
+  · rename_i G hG
+    simp only [Option.some.injEq] at h
+    obtain ⟨f, hf, s⟩ := fitW_of_inv Y hG
+    refine ⟨f, hf, ?_⟩
+    subst h
+    have hb : mmul (mmul G (tr X)) Y = f.beta := by rw [s.beta, s.pinv]
+    refine ⟨hb, ?_, ?_, ?_⟩
+    · show mmul (mmul G (tr X)) (tr (mmul G (tr X))) = f.cov
+      rw [s.cov, s.pinv]
+    · show (fun j => (fsum fun i => msub Y (mmul X (mmul (mmul G (tr X)) Y)) i j *
+          msub Y (mmul X (mmul (mmul G (tr X)) Y)) i j) / ((n : Rat) - (p : Rat))) = f.dispersion
+      rw [s.dispersion, s.sse, s.wresid, hb]
+    · show (n : Rat) - (p : Rat) = ((f.dfResid : Int) : Rat)
+      rw [s.df]; push_cast; rfl
+
+end NipyVerif.C05
+
+namespace NipyVerif.C05
+open Matrix
+
+/-! ### reparametrisation `X ↦ X T` -/
+
+theorem fitW_reparam_beta {n p v : Nat} (wX : Mat n p) (wY : Mat n v) (T Ti : Mat p p)
+    (hT : mmul T Ti = idm p) (f f' : Fit n p v)
+    (h : fitW wX wY = some f) (h' : fitW (mmul wX T) wY = some f') :
+    mmul T f'.beta = f.beta := by
+  obtain ⟨G, _, s⟩ := fitW_spec h
+  obtain ⟨G', _, s'⟩ := fitW_spec h'
+  have o := orth_of_spec s
+  have o' := orth_of_spec s'
+  rw [s.wresid] at o
+  rw [s'.wresid] at o'
+  have ho : (toM wX)ᵀ * (toM wY - toM wX * toM f.beta) = 0 := by
+    have := congrArg toM o
+    simp only [mmul_toM, msub_toM, tr_toM] at this
+    exact this
+  have ho' : (toM wX * toM T)ᵀ * (toM wY - toM wX * toM T * toM f'.beta) = 0 := by
+    have := congrArg toM o'
+    simp only [mmul_toM, msub_toM, tr_toM] at this
+    exact this
+  have hTT : (toM Ti)ᵀ * (toM T)ᵀ = 1 := by
+    have : toM T * toM Ti = 1 := by rw [← mmul_toM, hT, idm_toM]
+    rw [← Matrix.transpose_mul, this, Matrix.transpose_one]
+  have hG : toM G * ((toM wX)ᵀ * toM wX) = 1 := by
+    have := congrArg toM s.inv
+    simpa [mmul_toM, tr_toM, idm_toM] using this
+  have e1 : (toM wX)ᵀ * (toM wY - toM wX * (toM T * toM f'.beta)) = 0 := by
+    calc (toM wX)ᵀ * (toM wY - toM wX * (toM T * toM f'.beta))
+        = ((toM Ti)ᵀ * (toM T)ᵀ) * ((toM wX)ᵀ * (toM wY - toM wX * (toM T * toM f'.beta))) := by
+          rw [hTT, Matrix.one_mul]
+      _ = (toM Ti)ᵀ * ((toM wX * toM T)ᵀ * (toM wY - toM wX * toM T * toM f'.beta)) := by
+          simp only [Matrix.transpose_mul, Matrix.mul_assoc]
+      _ = 0 := by rw [ho', Matrix.mul_zero]
+  have e2 : (toM wX)ᵀ * toM wX * (toM f.beta - toM T * toM f'.beta) = 0 := by
+    have : (toM wX)ᵀ * toM wX * (toM f.beta - toM T * toM f'.beta)
+        = (toM wX)ᵀ * (toM wY - toM wX * (toM T * toM f'.beta))
+          - (toM wX)ᵀ * (toM wY - toM wX * toM f.beta) := by
+      simp only [Matrix.mul_sub, Matrix.mul_assoc]; abel
+    rw [this, e1, ho, sub_zero]
+  have e3 : toM f.beta - toM T * toM f'.beta = 0 := by
+    calc toM f.beta - toM T * toM f'.beta
+        = (toM G * ((toM wX)ᵀ * toM wX)) * (toM f.beta - toM T * toM f'.beta) := by
+          rw [hG, Matrix.one_mul]
+      _ = toM G * ((toM wX)ᵀ * toM wX * (toM f.beta - toM T * toM f'.beta)) := by
+          simp only [Matrix.mul_assoc]
+      _ = 0 := by rw [e2, Matrix.mul_zero]
+  apply toM_inj
+  rw [mmul_toM]
+  exact (sub_eq_zero.mp e3).symm
+
+theorem fitW_reparam_cov {n p v : Nat} (wX : Mat n p) (wY : Mat n v) (T Ti : Mat p p)
+    (hT : mmul T Ti = idm p) (f f' : Fit n p v)
+    (h : fitW wX wY = some f) (h' : fitW (mmul wX T) wY = some f') :
+    mmul (mmul T f'.cov) (tr T) = f.cov := by
+  obtain ⟨G, _, s⟩ := fitW_spec h
+  obtain ⟨G', _, s'⟩ := fitW_spec h'
+  have hc : toM f.cov * ((toM wX)ᵀ * toM wX) = 1 := by
+    have := congrArg toM (cov_gram_of_spec s)
+    simpa [mmul_toM, tr_toM, idm_toM] using this
+  have hc2 : ((toM wX)ᵀ * toM wX) * toM f.cov = 1 := mul_eq_one_comm.mp hc
+  have hc' : toM f'.cov * ((toM T)ᵀ * ((toM wX)ᵀ * (toM wX * toM T))) = 1 := by
+    have := congrArg toM (cov_gram_of_spec s')
+    simpa [mmul_toM, tr_toM, idm_toM, Matrix.transpose_mul, Matrix.mul_assoc] using this
+  have hTTi : toM T * toM Ti = 1 := by rw [← mmul_toM, hT, idm_toM]
+  have key : toM T * toM f'.cov * (toM T)ᵀ * ((toM wX)ᵀ * toM wX) = 1 := by
+    calc toM T * toM f'.cov * (toM T)ᵀ * ((toM wX)ᵀ * toM wX)
+        = toM T * toM f'.cov * (toM T)ᵀ * ((toM wX)ᵀ * toM wX) * (toM T * toM Ti) := by
+          rw [hTTi, Matrix.mul_one]
+      _ = toM T * (toM f'.cov * ((toM T)ᵀ * ((toM wX)ᵀ * (toM wX * toM T)))) * toM Ti := by
+          simp only [Matrix.mul_assoc]
+      _ = 1 := by rw [hc', Matrix.mul_one, hTTi]
+  apply toM_inj
+  rw [mmul_toM, mmul_toM, tr_toM]
+  calc toM T * toM f'.cov * (toM T)ᵀ
+      = toM T * toM f'.cov * (toM T)ᵀ * (((toM wX)ᵀ * toM wX) * toM f.cov) := by
+        rw [hc2, Matrix.mul_one]
+    _ = (toM T * toM f'.cov * (toM T)ᵀ * ((toM wX)ᵀ * toM wX)) * toM f.cov := by
+        simp only [Matrix.mul_assoc]
+    _ = toM f.cov := by rw [key, Matrix.one_mul]
+
+theorem arLoop_mmul {n k k' : Nat} (T : Mat k k') (X : Mat n k) (rho : List Rat) :
+    ∀ (i : Nat) (acc : Mat n k),
+      arLoop (mmul X T) rho i (mmul acc T) = mmul (arLoop X rho i acc) T := by
+  induction rho with
+  | nil => intro i acc; rfl
+  | cons r rs ih =>
+      intro i acc
+      simp only [arLoop]
+      have : arStep (mmul X T) (mmul acc T) i r = mmul (arStep X acc i r) T := by
+        funext t j; unfold arStep mmul; simp only [fsum_eq]
+        by_cases hc : i + 1 ≤ t.1
+        · simp only [dif_pos hc]
+          rw [Finset.mul_sum, ← Finset.sum_sub_distrib]
+          apply Finset.sum_congr rfl; intro l _; ring
+        · simp only [dif_neg hc]
+      rw [this]; exact ih (i + 1) (arStep X acc i r)
+
+theorem apply_mmul {n k k' : Nat} (w : Whitener n) (X : Mat n k) (T : Mat k k') :
+    w.apply (mmul X T) = mmul (w.apply X) T := by
+  cases w with
+  | ols => rfl
+  | wls c =>
+      funext t j; simp only [Whitener.apply, whitenWLS, mmul, fsum_eq, Finset.sum_mul]
+      apply Finset.sum_congr rfl; intro l _; ring
+  | ar rho => exact arLoop_mmul T X rho 0 X
+  | gls W => simp only [Whitener.apply, whitenGLS, mmul_assoc]
+
+end NipyVerif.C05
+
+namespace NipyVerif.C05
+/-! ### concrete objects for the non-vacuity examples in `Props/C05` -/
+def exX : Mat 3 2 := fun i j => (([[1, 0], [1, 1], [1, 2]] : List (List Rat)).getD i.1 []).getD j.1 0
+def exY : Mat 3 1 := fun i j => (([[1], [0], [2]] : List (List Rat)).getD i.1 []).getD j.1 0
+def exT : Mat 2 2 := fun i j => (([[1, 1], [0, 2]] : List (List Rat)).getD i.1 []).getD j.1 0
+def exTi : Mat 2 2 := fun i j => (([[1, -1/2], [0, 1/2]] : List (List Rat)).getD i.1 []).getD j.1 0
+end NipyVerif.C05
+
+namespace NipyVerif.C05
+/-! ### Kalman recursion = regularised normal equations (Sherman–Morrison induction) -/
+open Finset
+
+/-- invariant of the Kalman recursion against an information matrix `A` and right-hand side `r` -/
+structure KFInv {p : Nat} (A : Mat p p) (r : Vec p) (s : KF p) : Prop where
+  AP : ∀ i j, ∑ k, A i k * s.P k j = if i = j then 1 else 0
+  sym : ∀ i j, s.P i j = s.P j i
+  Ab : ∀ i, ∑ k, A i k * s.b k = r i
+  psd : ∀ z : Vec p, 0 ≤ ∑ i, z i * ∑ k, A i k * z k
+
+theorem kfStep_inv {p : Nat} {A : Mat p p} {r : Vec p} {s : KF p} (h : KFInv A r s) (x : Vec p) (y : Rat) :
+    KFInv (fun i k => A i k + x i * x k) (fun i => r i + y * x i) (kfStep s x y) := by
+  obtain ⟨hAP, hsym, hAb, hpsd⟩ := h
+  set c : Vec p := fun i => ∑ l, s.P i l * x l with hc
+  have F1 : ∀ i, ∑ k, A i k * c k = x i := by
+    intro i
+    simp only [hc, Finset.mul_sum]
+    rw [Finset.sum_comm]
+    have : ∀ l, ∑ k, A i k * (s.P k l * x l) = x l * ∑ k, A i k * s.P k l := by
+      intro l; rw [Finset.mul_sum]; apply Finset.sum_congr rfl; intro k _; ring
+    simp only [this, hAP, mul_ite, mul_one, mul_zero, Finset.sum_ite_eq, Finset.mem_univ, if_true]
+  have F2 : ∀ j, ∑ k, x k * s.P k j = c j := by
+    intro j; simp only [hc]; apply Finset.sum_congr rfl; intro k _; rw [hsym k j]; ring
+  have F3 : 0 ≤ ∑ k, x k * c k := by
+    have := hpsd c
+    simp only [F1] at this
+    have e : ∑ i, c i * x i = ∑ k, x k * c k := by apply Finset.sum_congr rfl; intro k _; ring
+    rw [e] at this; exact this
+  set v : Rat := ∑ k, x k * c k + 1 with hv
+  have hvpos : 0 < v := by rw [hv]; linarith
+  have hvne : v ≠ 0 := ne_of_gt hvpos
+  have hxc : ∑ k, x k * c k = v - 1 := by rw [hv]; ring
+  have hmv : mvec s.P x = c := by funext i; simp [mvec, fsum_eq, hc]
+  have hvd : vdot x c + 1 = v := by simp [vdot, fsum_eq, hv]
+  have hEy : vdot x s.b = ∑ k, x k * s.b k := by simp [vdot, fsum_eq]
+  have hP : (kfStep s x y).P = fun i j => s.P i j + (-(1 / v)) * (c i * c j) := by
+    simp only [kfStep, ofArr1_toArr1, ofArr2_toArr2, hmv, hvd]
+  have hb : (kfStep s x y).b = fun i => s.b i + 1 / v * (y - ∑ k, x k * s.b k) * c i := by
+    simp only [kfStep, ofArr1_toArr1, ofArr2_toArr2, hmv, hvd, hEy]
+  refine ⟨?_, ?_, ?_, ?_⟩
+  · intro i j
+    rw [hP]
+    have : ∀ k, (A i k + x i * x k) * (s.P k j + (-(1 / v)) * (c k * c j))
+        = A i k * s.P k j + (-(1 / v) * c j) * (A i k * c k) + x i * (x k * s.P k j)
+          + (-(1 / v) * x i * c j) * (x k * c k) := by intro k; ring
+    simp only [this, Finset.sum_add_distrib, ← Finset.mul_sum, hAP, F1, F2, hxc]
+    field_simp
+    ring
+  · intro i j
+    rw [hP]; simp only; rw [hsym i j]; ring
+  · intro i
+    rw [hb]
+    have : ∀ k, (A i k + x i * x k) * (s.b k + 1 / v * (y - ∑ k, x k * s.b k) * c k)
+        = A i k * s.b k + (1 / v * (y - ∑ k, x k * s.b k)) * (A i k * c k) + x i * (x k * s.b k)
+          + (1 / v * (y - ∑ k, x k * s.b k) * x i) * (x k * c k) := by intro k; ring
+    simp only [this, Finset.sum_add_distrib, ← Finset.mul_sum, hAb, F1, hxc]
+    field_simp
+    ring
+  · intro z
+    have : ∀ i, z i * ∑ k, (A i k + x i * x k) * z k
+        = z i * ∑ k, A i k * z k + (z i * x i) * ∑ k, x k * z k := by
+      intro i
+      have : ∀ k, (A i k + x i * x k) * z k = A i k * z k + x i * (x k * z k) := by intro k; ring
+      simp only [this, Finset.sum_add_distrib, ← Finset.mul_sum]; ring
+    simp only [this, Finset.sum_add_distrib, ← Finset.sum_mul]
+    have e : ∑ i, z i * x i = ∑ k, x k * z k := by apply Finset.sum_congr rfl; intro k _; ring
+    rw [e]
+    have := hpsd z
+    nlinarith [mul_self_nonneg (∑ k, x k * z k)]
+
+/-- information matrix and right-hand side accumulated over the rows seen so far -/
+def gramL {p : Nat} (lam : Rat) (rows : List (Vec p × Rat)) : Mat p p :=
+  fun i k => (if i = k then lam else 0) + (rows.map fun r => r.1 i * r.1 k).sum
+
+def rhsL {p : Nat} (rows : List (Vec p × Rat)) : Vec p := fun i => (rows.map fun r => r.2 * r.1 i).sum
+
+theorem kfRun_snoc {p : Nat} (iv : Rat) (rs : List (Vec p × Rat)) (r : Vec p × Rat) :
+    kfRun iv (rs ++ [r]) = kfStep (kfRun iv rs) r.1 r.2 := by
+  simp [kfRun, List.foldl_append]
+
+theorem kfRun_inv {p : Nat} (iv : Rat) (hiv : 0 < iv) (rows : List (Vec p × Rat)) :
+    KFInv (gramL (1 / iv) rows) (rhsL rows) (kfRun iv rows) := by
+  induction rows using List.reverseRecOn with
+  | nil =>
+      have hne : iv ≠ 0 := ne_of_gt hiv
+      refine ⟨?_, ?_, ?_, ?_⟩
+      · intro i j
+        simp only [gramL, kfRun, List.foldl_nil, kfInit, List.map_nil, List.sum_nil, add_zero,
+          ite_mul, zero_mul, Finset.sum_ite_eq, Finset.mem_univ, if_true]
+        by_cases h : i = j
+        · simp only [h, if_true]; field_simp
+        · simp only [h, if_false, mul_zero]
+      · intro i j
+        simp only [kfRun, List.foldl_nil, kfInit]
+        by_cases h : i = j
+        · simp [h]
+        · have h' : ¬ j = i := fun e => h e.symm
+          simp [h, h']
+      · intro i
+        simp [gramL, rhsL, kfRun, kfInit]
+      · intro z
+        simp only [gramL, List.map_nil, List.sum_nil, add_zero, ite_mul, zero_mul, Finset.sum_ite_eq,
+          Finset.mem_univ, if_true]
+        apply Finset.sum_nonneg; intro i _
+        have : 0 ≤ 1 / iv := by positivity
+        nlinarith [mul_self_nonneg (z i)]
+  | append_singleton rs r ih =>
+      rw [kfRun_snoc]
+      have hA : gramL (1 / iv) (rs ++ [r]) = fun i k => gramL (1 / iv) rs i k + r.1 i * r.1 k := by
+        funext i k; simp only [gramL, List.map_append, List.sum_append, List.map_cons, List.map_nil,
+          List.sum_cons, List.sum_nil, add_zero]; ring
+      have hr : rhsL (rs ++ [r]) = fun i => rhsL rs i + r.2 * r.1 i := by
+        funext i; simp only [rhsL, List.map_append, List.sum_append, List.map_cons, List.map_nil,
+          List.sum_cons, List.sum_nil, add_zero]
+      rw [hA, hr]
+      exact kfStep_inv ih r.1 r.2
+
+theorem gramL_rows {n p : Nat} (lam : Rat) (X : Mat n p) (y : Vec n) :
+    gramL lam (kfRows X y) = fun i k => (if i = k then lam else 0) + ∑ t, X t i * X t k := by
+  funext i k
+  simp only [gramL, kfRows, List.map_ofFn, List.sum_ofFn, Function.comp_def]
+
+theorem rhsL_rows {n p : Nat} (X : Mat n p) (y : Vec n) :
+    rhsL (kfRows X y) = fun i => ∑ t, y t * X t i := by
+  funext i
+  simp only [rhsL, kfRows, List.map_ofFn, List.sum_ofFn, Function.comp_def]
+
+theorem kfFit_inv {n p : Nat} (X : Mat n p) (y : Vec n) :
+    KFInv (fun i k => (if i = k then 1 / kfInitVar else 0) + ∑ t, X t i * X t k)
+      (fun i => ∑ t, y t * X t i) (kfFit X y) := by
+  have h := kfRun_inv kfInitVar (by unfold kfInitVar; norm_num) (kfRows X y)
+  rw [gramL_rows, rhsL_rows] at h
+  exact h
 
 end NipyVerif.C05
